@@ -27,10 +27,35 @@ def fuzz(name, target, seconds, **kw):
 REPLAYS = {"kind": "replays", "name": "regress"}
 
 CHECKS = {
+    "C14": {
+        "steps": [
+            REPLAYS,
+            rapid("roundtrip", "TestC14", 80000, 1500000, qshards=4, tshards=14),
+        ],
+        "assumptions": [
+            "values inside the documented field requirements: non-empty URIs, NAME/GROUP-ID/CODECS present, durations >= 10us, TargetDuration >= 1, integers < 2^31, whole-minute zone offsets",
+            "once an EXT-X-KEY is in force every later segment carries a key (HLS semantics); METHOD=NONE carries no other attribute",
+            "quoted strings contain no double quote / CR / LF; URI lines do not start with '#' and have no surrounding whitespace; titles are trimmed",
+        ],
+    },
+    "C15": {
+        "steps": [
+            REPLAYS,
+            rapid("decoder", "TestC15Decoder", 200000, 5000000, qshards=4, tshards=14),
+            rapid("grammar", "TestC15Grammar", 80000, 1500000, qshards=4, tshards=14),
+            fuzz("fuzz-media", "FuzzC15Media", 150),
+            fuzz("fuzz-multi", "FuzzC15Multi", 100),
+            fuzz("fuzz-any", "FuzzC15Any", 100),
+        ],
+        "assumptions": [
+            "the strict grammar is harness/m3u8x.Strict (written from RFC 8216 / draft-pantos-hls-rfc8216bis, shares no code with pkg/playlist)",
+            "grammar half uses the value domain of C14; values with parts get an EXT-X-PART-INF (cross-field requirement of a valid value)",
+        ],
+    },
     "C17": {
         "steps": [
             REPLAYS,
-            rapid("storage", "TestC17", 20000, 2000000, qshards=2, tshards=14),
+            rapid("storage", "TestC17", 100000, 3000000, qshards=4, tshards=14),
         ],
         "assumptions": [
             "one Writer() per part, parts written in allocation order (what the muxer does)",
